@@ -5,8 +5,8 @@
    property directly.  Termination of the MODEL is by construction (structural recursion on fuel); that the fuel the
    driver passes suffices is observed on every run (no FUEL outcome), not yet proved.  Proved so far - the tokenizer's
    behaviour on the token classes the top-level loop dispatches on (for every amount of leading horizontal whitespace): *)
-Require Import Bebop.front.Tok Bebop.front.TokInv Bebop.front.LexInv Bebop.front.Parse Bebop.front.ParseInv Bebop.front.FmtInv Bebop.front.MsgInv Bebop.front.GenInv Bebop.front.Items Bebop.front.TyInv Bebop.front.TyMsg Bebop.front.TyItems Bebop.front.TyUnion Bebop.front.TyUnionItem Bebop.front.Schema.
-From Coq Require Import List NArith.
+Require Import Bebop.front.Tok Bebop.front.TokInv Bebop.front.LexInv Bebop.front.Parse Bebop.front.ParseInv Bebop.front.FmtInv Bebop.front.MsgInv Bebop.front.GenInv Bebop.front.Items Bebop.front.TyInv Bebop.front.TyMsg Bebop.front.TyItems Bebop.front.TyUnion Bebop.front.TyUnionItem Bebop.front.TyOpcode Bebop.front.TyEnum Bebop.front.TyDep Bebop.front.TyDoc Bebop.front.TyDec Bebop.front.TyImport Bebop.front.Schema.
+From Coq Require Import List NArith ZArith.
 Import ListNotations.
 
 Definition C11_partial_statement : Prop :=
@@ -112,8 +112,11 @@ Print Assumptions C11_records.
 
 (* And with ENUMS and CONTAINER TYPES, through the item framework of front/GenInv.v (each kind of definition contributes its
    tokens, what it adds to the File and one step lemma for the top-level loop; front/Items.v and front/TyItems.v have the
-   instances; front/TyUnion.v + front/TyUnionItem.v the union): a schema is any sequence of struct, readonly struct, message,
-   enum and (non-empty) union definitions, union branches being structs or messages under distinct indices; a field type is an
+   instances; front/TyUnion.v + front/TyUnionItem.v the union): a schema is any sequence of import lines (front/TyImport.v), struct, readonly struct, message,
+   enum and (non-empty) union definitions, union branches being structs or messages under distinct indices, structs and messages
+   optionally under an [opcode(..)] line (front/TyOpcode.v), enums optionally with a declared integer base type (front/TyEnum.v), message fields
+   optionally under a [deprecated("reason")] line (front/TyDep.v), structs and messages optionally under `//` doc comment lines (front/TyDoc.v);
+   a field type is an
    identifier, array[T], map[K, V] with a primitive key, or any of those followed by any number of [] - nested to ANY depth
    (front/TyInv.v: read_field_type on the tokens of a type expression, by induction on the expression); enums untyped,
    members with plain decimal values; the readonly marker lands on the struct it precedes and on no other.  For EVERY such
@@ -127,7 +130,8 @@ Definition C11_schema_statement : Prop :=
      structs (schema_file dl) = flat_map structs_of dl /\
      messages (schema_file dl) = flat_map messages_of dl /\
      enums (schema_file dl) = flat_map enums_of dl /\
-     unions (schema_file dl) = flat_map unions_of dl /\ consts (schema_file dl) = [] /\ imports (schema_file dl) = [] /\ gopackage (schema_file dl) = []) /\
+     unions (schema_file dl) = flat_map unions_of dl /\ consts (schema_file dl) = [] /\ imports (schema_file dl) = flat_map imports_of dl /\ gopackage (schema_file dl) = []) /\
+  (forall path k, imports_of (SImport path k) = [path]) /\
   (* what the pieces are *)
   (forall nm bl k, unions_of (SUnion nm bl k) =
      [{| un_name := ibytes nm; un_comment := []; un_opcode := 0;
@@ -144,6 +148,38 @@ Definition C11_schema_statement : Prop :=
   (forall nm fl k, messages_of (SMessage nm fl k) =
      [{| m_name := ibytes nm; m_comment := []; m_opcode := 0;
          m_fields := map (fun f => (xv (fst f), {| f_type := ft_of (bty (fst (snd f))); f_name := ibytes (snd (snd f)); f_comment := []; f_tags := []; f_depmsg := []; f_dep := false |})) fl |}]) /\
+  (* a struct or message under an [opcode(..)] line carries the opcode: the number a decimal literal denotes, or the four
+     characters of a string literal little-endian *)
+  (forall op nm fl k, structs_of (SOpStruct op nm fl k) = [tstruct_of_opc (ol_val (bol op)) (ibytes nm) (map btf fl)]) /\
+  (forall op nm fl k, messages_of (SOpMessage op nm fl k) = [tmessage_of_opc (ol_val (bol op)) (ibytes nm) (map btm fl)]) /\
+  (forall x, ol_val (bol (LNum x)) = xv x) /\
+  (forall a b c d, ol_val (bol (LStr a b c d)) = (a + 256 * b + 65536 * c + 16777216 * d)%N) /\
+  (* a message field under a [deprecated("reason")] line is marked deprecated and carries the reason; the others are not *)
+  (forall nm fl k, messages_of (SDMessage nm fl k) =
+     [{| m_name := ibytes nm; m_comment := []; m_opcode := 0;
+         m_fields := map (fun f => (xv (fst (snd f)),
+                                    {| f_type := ft_of (bty (fst (snd (snd f)))); f_name := ibytes (snd (snd (snd f))); f_comment := []; f_tags := [];
+                                       f_depmsg := match fst f with Some b => b | None => [] end;
+                                       f_dep := match fst f with Some _ => true | None => false end |})) fl |}]) /\
+  (* `//` comment lines before a struct or a message are its comment: the lines joined by newlines *)
+  (forall cs nm fl k, structs_of (SDocStruct cs nm fl k) = [tstruct_of_cm (join_nl cs) (ibytes nm) (map btf fl)]) /\
+  (forall cs nm fl k, messages_of (SDocMessage cs nm fl k) = [tmessage_of_cm (join_nl cs) (ibytes nm) (map btm fl)]) /\
+  (* ANY sequence of `//` comment lines and opcode lines before a struct, readonly struct, message (fields possibly
+     deprecated), union or typed enum (front/TyDec.v; enums take no opcode line): the definition's comment is the comment
+     lines joined by newlines, its opcode that of the LAST opcode line (0 if there is none) *)
+  (forall P nm fl k, structs_of (SDec P (BStruct nm fl) k) = [gstruct_of (dec_cmt P) (dec_opc P) false (ibytes nm) (map btf fl)]) /\
+  (forall P nm fl k, structs_of (SDec P (BRoStruct nm fl) k) = [gstruct_of (dec_cmt P) (dec_opc P) true (ibytes nm) (map btf fl)]) /\
+  (forall P nm fl k, messages_of (SDec P (BMessage nm fl) k) = [gmessage_of (dec_cmt P) (dec_opc P) (ibytes nm) (map btm fl)]) /\
+  (forall P nm fl k, messages_of (SDec P (BDMessage nm fl) k) = [gdmessage_of (dec_cmt P) (dec_opc P) (ibytes nm) (map bdf fl)]) /\
+  (forall P nm bl k, unions_of (SDec P (BUnion nm bl) k) = [gunion_of (dec_cmt P) (dec_opc P) (ibytes nm) (map bub bl)]) /\
+  (forall P nm tname uns bits ml k, enums_of (SDec P (BEnum nm tname uns bits ml) k) = [genum_of (dec_cmt P) (ibytes nm) (ibytes tname) uns (map bem ml)]) /\
+  (forall b P, dec_cmt (LDoc b :: P) = join_nl (pcm (map bp P) [b])) /\ (forall l P, dec_cmt (LOpc l :: P) = dec_cmt P) /\ dec_cmt [] = [] /\
+  (forall P b, dec_opc (P ++ [LDoc b]) = dec_opc P) /\ (forall P l, dec_opc (P ++ [LOpc l]) = ol_val (bol l)) /\ dec_opc [] = 0%N /\
+  (* an enum with a declared base type has that type, its signedness, and members read at its width *)
+  (forall nm tname uns bits ml k, enums_of (STEnum nm tname uns bits ml k) =
+     [{| e_name := ibytes nm; e_comment := []; e_simple := ibytes tname; e_unsigned := uns;
+         e_opts := map (fun m => if uns then {| o_name := ibytes (fst m); o_comment := []; o_depmsg := []; o_value := 0%Z; o_uvalue := xv (snd m); o_dep := false |}
+                                 else {| o_name := ibytes (fst m); o_comment := []; o_depmsg := []; o_value := Z.of_N (xv (snd m)); o_uvalue := 0%N; o_dep := false |}) ml |}]) /\
   (* and what a type expression denotes: the identifier, array or map, wrapped in one array per [] *)
   (forall i n, ft_of (bty (LSimple i n)) = wrap n (FSimple (ibytes i))) /\
   (forall t n, ft_of (bty (LArray t n)) = wrap n (FArray (ft_of (bty t)))) /\
@@ -155,11 +191,11 @@ Proof.
   split; [|split; [exact schema_file_spec|]].
   - intros dl lay tail H1 H2 H3 H4 H5.
     destruct (schema_laws dl lay tail H1 H2 H3 H4 H5) as (y & _ & _ & _ & _ & Hr). exact Hr.
-  - split.
-    { intros nm bl k. unfold unions_of, union_of. rewrite map_map. do 2 f_equal. apply map_ext. intros [x bn fl|x bn fl]; reflexivity. }
-    repeat split; intros; unfold structs_of, messages_of, tstruct_of, tstruct_of_ro, tmessage_of; rewrite ?map_map; reflexivity.
+  - repeat match goal with |- _ /\ _ => split end; intros;
+      unfold unions_of, union_of, structs_of, messages_of, enums_of, tstruct_of, tstruct_of_ro, tmessage_of, tenum_of, dmessage_of, dec_cmt, dec_opc, popc; rewrite ?map_map, ?map_app, ?fold_left_app; try reflexivity.
+    + do 2 f_equal. apply map_ext. intros [x bn fl0|x bn fl0]; reflexivity.
 Qed.
-(* the hypotheses are met (an enum, a readonly struct with a map of arrays, a message with nested containers, a union, an empty struct;
+(* the hypotheses are met (two imports, an enum, a readonly struct with a map of arrays, a message with nested containers, a union, a message and a struct under opcode lines, an int16 enum, a message with a deprecated field, a struct under two comment lines, a union under comment / opcode / comment / opcode lines, a byte enum under a comment line, an empty struct;
    blank lines), and the conclusion computed *)
 Example C11_schema_witness :
   let E := {| ic := 69%N; itl := [] |} in let R := {| ic := 82%N; itl := [111%N] |} in let M := {| ic := 77%N; itl := [] |} in
@@ -167,23 +203,35 @@ Example C11_schema_witness :
   let i32 := {| ic := 105%N; itl := [110; 116; 51; 50]%N |} in let x := {| ic := 120%N; itl := [] |} in let y := {| ic := 121%N; itl := [] |} in
   let str := {| ic := 115%N; itl := [116; 114; 105; 110; 103]%N |} in
   let one := {| xc := 49%N; xds := []; xv := 1%N |} in let n200 := {| xc := 50%N; xds := [48; 48]%N; xv := 200%N |} in
-  let dl := [SEnum E [(A, one); (B, n200)] 1;
+  let dl := [SImport [97; 46; 98; 111; 112]%N 0; SImport [98]%N 2; SEnum E [(A, one); (B, n200)] 1;
              SReadonly R [(LMap str (LArray (LSimple i32 1) 0) 2, x); (LSimple i32 0, y)] 0;
              SMessage M [(n200, (LArray (LMap i32 (LSimple R 0) 0) 1, x)); (one, (LSimple E 3, y))] 2;
              SUnion {| ic := 85%N; itl := [] |} [LUs n200 A [(LArray (LSimple i32 0) 0, x)]; LUm one B [(one, (LSimple str 1, y))]] 1;
+             SOpMessage (LStr 65%N 66%N 67%N 68%N) {| ic := 79%N; itl := [] |} [(one, (LSimple i32 0, x))] 0;
+             SOpStruct (LNum n200) {| ic := 80%N; itl := [] |} [] 1;
+             STEnum {| ic := 84%N; itl := [] |} {| ic := 105%N; itl := [110; 116; 49; 54]%N |} false 16%N [(A, n200)] 0;
+             SDMessage {| ic := 68%N; itl := [] |} [(Some [111; 108; 100]%N, (one, (LSimple i32 0, x))); (None, (n200, (LSimple str 0, y)))] 0;
+             SDocStruct [[32; 97]%N; [98]%N] {| ic := 67%N; itl := [] |} [(LSimple i32 0, x)] 1;
+             SDec [LDoc [100]%N; LOpc (LNum one); LDoc [101]%N; LOpc (LStr 69%N 70%N 71%N 72%N)] (BUnion {| ic := 86%N; itl := [] |} [LUs one A []]) 1;
+             SDec [LDoc [102]%N] (BEnum {| ic := 87%N; itl := [] |} {| ic := 98%N; itl := [121; 116; 101]%N |} true 8%N [(A, n200)]) 0;
              SStruct S [] 0] in
   let lay := glayout (map xel_of dl) in
   Forall sdefn_ok dl /\ map snd lay = schema_lexemes dl /\ sep_ok lay /\
   (exists s', read_file (render lay []) false = POk (schema_file dl) s') /\
-  map s_readonly (structs (schema_file dl)) = [true; false] /\
+  map s_readonly (structs (schema_file dl)) = [true; false; false; false] /\ map s_opcode (structs (schema_file dl)) = [0; 200; 0; 0]%N /\
+  map s_comment (structs (schema_file dl)) = [[]; []; [32; 97; 10; 98]; []]%N /\
+  map m_opcode (messages (schema_file dl)) = [0; 1145258561; 0]%N /\ imports (schema_file dl) = [[97; 46; 98; 111; 112]; [98]]%N /\
+  map (fun u => (un_comment u, un_opcode u)) (unions (schema_file dl)) = [([], 0%N); ([100; 10; 101]%N, 1212630597%N)] /\
+  map e_comment (enums (schema_file dl)) = [[]; []; [102]]%N /\
+  map (fun p => f_dep (snd p)) (flat_map m_fields (messages (schema_file dl))) = [false; false; false; true; false] /\
   map (fun f => f_type f) (flat_map s_fields (structs (schema_file dl)))
-  = [FArray (FArray (FMap (ibytes str) (FArray (FArray (FSimple (ibytes i32)))))); FSimple (ibytes i32)].
+  = [FArray (FArray (FMap (ibytes str) (FArray (FArray (FSimple (ibytes i32)))))); FSimple (ibytes i32); FSimple (ibytes i32)].
 Proof.
   cbv zeta.
   match goal with |- Forall sdefn_ok ?d /\ _ => assert (Hok : Forall sdefn_ok d) end.
   { repeat constructor; cbn; intuition discriminate. }
   split; [exact Hok|].
   assert (Hx : Forall xel_ok (map xel_of _)) by (eapply Forall_map'; exact Hok).
-  split; [exact (glayout_lex _ Hx)|]. split; [exact (glayout_sep _ Hx)|]. split; [eexists; vm_compute; reflexivity|]. split; vm_compute; reflexivity.
+  split; [exact (glayout_lex _ Hx)|]. split; [exact (glayout_sep _ Hx)|]. split; [eexists; vm_compute; reflexivity|]. repeat split; vm_compute; reflexivity.
 Qed.
 Print Assumptions C11_schema.
